@@ -694,10 +694,17 @@ func runReplayProcess(exe, path, variant string) int {
 	}
 	done := make(chan error, 1)
 	go func() { done <- cmd.Wait() }()
+	// a hang candidate whose scenario is a long enumeration stops at the 90 s
+	// deadline above and returns; the kill comes late enough that a machine
+	// shared with other batches does not turn such a scenario into a "hang"
+	limit := 3 * time.Minute
+	if strings.HasSuffix(strings.TrimSuffix(path, ".json"), "-hang") {
+		limit = 6 * time.Minute
+	}
 	var err error
 	select {
 	case err = <-done:
-	case <-time.After(3 * time.Minute):
+	case <-time.After(limit):
 		cmd.Process.Kill()
 		<-done
 		return 4 // hang
